@@ -470,3 +470,17 @@ func MemHashCheck(keys []string) bool {
 	}
 	return true
 }
+
+// NumCallbacks returns the number of (non-zero-valued) callback and hook records so far.
+func (l *Lab) NumCallbacks() int {
+	l.cbMu.Lock()
+	defer l.cbMu.Unlock()
+	return len(l.cb)
+}
+
+// CallbacksSince returns a copy of the callback records from index n on.
+func (l *Lab) CallbacksSince(n int) []Ev {
+	l.cbMu.Lock()
+	defer l.cbMu.Unlock()
+	return append([]Ev(nil), l.cb[n:]...)
+}
